@@ -682,6 +682,10 @@ where
             st.x(kind, detail);
         }
     }
+    for m in probes::loop_probe(&mut st.rng) {
+        let (kind, detail) = m.split_once(": ").unwrap_or((m.as_str(), ""));
+        st.x(kind, detail);
+    }
     let _ = writeln!(st.out, "O DROP");
     st.blocks.clear();
     drop(bump);
